@@ -24,7 +24,36 @@ fn check_new_vm() -> Result<(), String> {
     if let Some(a) = vm.mem.iter().position(|b| *b != 0) {
         return Err(format!("memory of a new machine is not zero at {:05X}h ({:02X})", a, vm.mem[a]));
     }
+    // every public way of obtaining a new machine: VM::default() when the type implements Default (decided at
+    // compile time by method resolution, so the harness builds whether or not the implementation exists)
+    if let Some(d) = (&ViaDefault::<VM>(std::marker::PhantomData)).make() {
+        let r = snap(&d);
+        if r != exp {
+            return Err(format!("registers of a new machine obtained through Default: {}", exp.diff(&r).join(", ")));
+        }
+        if let Some(a) = d.mem.iter().position(|b| *b != 0) {
+            return Err(format!("memory of a new machine obtained through Default is not zero at {:05X}h", a));
+        }
+    }
     Ok(())
+}
+
+struct ViaDefault<T>(std::marker::PhantomData<T>);
+trait MakeDefault<T> {
+    fn make(&self) -> Option<T>;
+}
+impl<T: Default> MakeDefault<T> for ViaDefault<T> {
+    fn make(&self) -> Option<T> {
+        Some(T::default())
+    }
+}
+trait MakeNone<T> {
+    fn make(&self) -> Option<T>;
+}
+impl<T> MakeNone<T> for &ViaDefault<T> {
+    fn make(&self) -> Option<T> {
+        None
+    }
 }
 
 // ------------------------------------------------------------------ (3) isolation of machines sharing one interpreter
@@ -265,7 +294,17 @@ fn answer_print(p: &print::PrintParser, line: &str, regs: &[u16]) -> String {
 fn answer_pre(p: &Preprocessor, text: &str) -> String {
     let mut ctx = PreprocessorContext::default();
     let mut out = PreprocessorOutput::default();
-    let r = catch(|| p.parse(&mut ctx, &mut out, text).map_err(|e| format!("{}", e)));
+    answer_pre_in(p, &mut ctx, &mut out, text)
+}
+
+/// the same answer from a context and an output list that were used before and reset with clear(), which is how
+/// the library's own tests reuse them
+fn answer_pre_in(p: &Preprocessor, ctx: &mut PreprocessorContext, out: &mut PreprocessorOutput, text: &str) -> String {
+    ctx.clear();
+    out.clear();
+    let r = catch(|| p.parse(ctx, out, text).map_err(|e| format!("{}", e)));
+    let ctx = std::mem::take(ctx);
+    let out = std::mem::take(out);
     let mut labels: Vec<(String, usize)> = ctx.label_map.iter().map(|(k, v)| (k.clone(), v.map)).collect();
     labels.sort();
     let mut fns: Vec<(String, usize)> = ctx.fn_map.iter().map(|(k, v)| (k.clone(), *v)).collect();
@@ -298,8 +337,16 @@ pub fn eval_hist(c: &HistCase) -> CaseOutcome {
     };
     // used objects: first process the history (on other machines and contexts)
     let (ui, ud, up, upre) = (Interpreter::new(), DataParser::new(), print::PrintParser::new(), Preprocessor::new());
+    let mut shared_ctx = PreprocessorContext::default();
+    let mut shared_out = PreprocessorOutput::default();
     for h in &c.history {
         let a = answer_pre(&upre, h);
+        // a second Preprocessor keeps ONE context and output list, reset with clear() between texts
+        let _ = catch(|| {
+            shared_ctx.clear();
+            shared_out.clear();
+            let _ = upre.parse(&mut shared_ctx, &mut shared_out, h);
+        });
         had_err |= a.starts_with("Ok(Err") || a.starts_with("Err");
         // the history runs on another machine and context: only the parser objects see it
         let mut hvm = setup_vm(&c.regs);
@@ -319,6 +366,10 @@ pub fn eval_hist(c: &HistCase) -> CaseOutcome {
     }
     let used: Vec<String> = probe_lines.iter().flat_map(|l| vec![answer_interp(&ui, l, &c.regs), answer_data(&ud, l, &c.regs), answer_print(&up, l, &c.regs)]).collect();
     let used_pre = answer_pre(&upre, &c.probe);
+    let reused_pre = answer_pre_in(&upre, &mut shared_ctx, &mut shared_out, &c.probe);
+    if fresh_pre != reused_pre {
+        return CaseOutcome::Fail { key: "c19|parser-state|preprocessor-context-after-clear".into(), what: format!("a Preprocessor with a context that processed {} other texts and was reset with clear() answers differently from a fresh one: fresh {:.200} / reused {:.200}", c.history.len(), fresh_pre, reused_pre), replay };
+    }
     if fresh_pre != used_pre {
         return CaseOutcome::Fail { key: "c19|parser-state|preprocessor".into(), what: format!("a Preprocessor object that has processed {} other texts answers differently from a fresh one: fresh {:.200} / used {:.200}", c.history.len(), fresh_pre, used_pre), replay };
     }
@@ -354,7 +405,11 @@ pub struct DetCase {
 }
 
 pub fn det_s() -> BoxedStrategy<DetCase> {
-    (crate::c14::raw_s(), proptest::collection::vec((any::<u16>(), 0u8..11), 0..7), any::<bool>(), 0u8..12)
+    let general = proptest::collection::vec((any::<u16>(), 0u8..14), 0..7);
+    // only uses of a macro whose body holds several jumps, all to undefined labels: every jump of one use is recorded
+    // at the position of that use, so the order among them is not decided by the position
+    let multi = proptest::collection::vec((any::<u16>(), 11u8..14), 1..3);
+    (crate::c14::raw_s(), prop_oneof![4 => general, 1 => multi], any::<bool>(), 0u8..12)
         .prop_map(|(raw, errors, interpreted, stdin_lines)| DetCase { raw, errors, interpreted, stdin_lines })
         .boxed()
 }
@@ -372,6 +427,10 @@ pub fn det_source(c: &DetCase) -> String {
             5 => "mov al, byte nosuch".to_string(),
             // jumps that come out of one macro: every use records its jump at the same position inside the expansion
             8 | 9 | 10 => format!("jq9(undef_m{})", k),
+            // several jumps out of ONE macro use
+            11 => format!("jq2(undef_a{}, undef_b{})", k, k),
+            12 => format!("jq2(undef_z{}, undef_a{})", k, k),
+            13 => format!("jq3(undef_c{}, undef_a{}, undef_b{})", k, k, k),
             6 => format!("dup_{}: nop\ndup_{}: nop", k, k),
             _ => "mov ax, 70000".to_string(),
         };
@@ -380,6 +439,8 @@ pub fn det_source(c: &DetCase) -> String {
     }
     if c.errors.iter().any(|(_, k)| *k >= 8) {
         lines.insert(first_code, "macro jq9(t) -> jmp t <-".to_string());
+        lines.insert(first_code, "macro jq2(a,b) -> jo a jmp b <-".to_string());
+        lines.insert(first_code, "macro jq3(a,b,c) -> jc a jz b loop c <-".to_string());
     }
     crate::c14::text_of(&lines)
 }
@@ -388,7 +449,11 @@ pub fn eval_det(c: &DetCase) -> CaseOutcome {
     let src = det_source(c);
     let stdin: Vec<u8> = (0..c.stdin_lines).flat_map(|i| if i % 5 == 4 { b"print reg\n".to_vec() } else { b"n\n".to_vec() }).collect();
     let run = || run_cli(src.as_bytes(), if stdin.is_empty() { Stdin::Closed } else { Stdin::Data(&stdin) }, c.interpreted, 4 << 20, 30_000);
+    let t0 = std::time::Instant::now();
     let first = run();
+    if std::env::var("VERIF_DEBUG_SLOW").is_ok() && t0.elapsed().as_millis() > 800 {
+        eprintln!("SLOW {} ms interpreted={} stdin_lines={} status={:?}\n{}\n----", t0.elapsed().as_millis(), c.interpreted, c.stdin_lines, first.status, src);
+    }
     if matches!(first.status, Status::Timeout | Status::SpawnError(_)) {
         return CaseOutcome::Inconclusive(format!("{:?}", first.status));
     }
@@ -420,6 +485,9 @@ pub fn eval_det(c: &DetCase) -> CaseOutcome {
     }
     if n_mac >= 2 && first.out_str().contains("used but not defined") {
         classes.push("c19/determinism-several-undefined-labels-from-one-macro".into());
+    }
+    if c.errors.iter().any(|(_, k)| *k >= 11) && c.errors.iter().all(|(_, k)| *k <= 4 || *k >= 8) && first.out_str().contains("used but not defined") {
+        classes.push("c19/determinism-several-undefined-labels-from-one-macro-use".into());
     }
     if c.errors.is_empty() {
         classes.push("c19/determinism-valid-program".into());
@@ -511,11 +579,31 @@ pub fn run(ctx: &Ctx) {
     let quiet = QuietStdout::new();
     let n_hist = ctx.tier.pick(2_400u32, 40_000u32);
     run_inproc(ctx, "c19-parser-history", n_hist, hist_s, eval_hist, |c| json!({"probe": c.probe.chars().take(200).collect::<String>(), "history_len": c.history.len()}));
+    // deep macro chains in the history (rejected at the nesting limit, or accepted just below it), then a short chain
+    // over the same macro names
+    let chain_cases: Vec<HistCase> = [(150usize, 3usize), (101, 1), (100, 100), (102, 50), (300, 99), (99, 100), (120, 120)]
+        .iter()
+        .map(|(d1, d2)| HistCase { history: vec![crate::c13::chain_program(*d1, false), crate::c13::chain_program(*d1 + 7, true)], probe: crate::c13::chain_program(*d2, false), regs: vec![0; 13] })
+        .collect();
+    let outs: Vec<CaseOutcome> = chain_cases.par_iter().map(eval_hist).collect();
+    for (c, o) in chain_cases.iter().zip(outs) {
+        ctx.add_evals(1);
+        match o {
+            CaseOutcome::Pass { .. } => {
+                ctx.add_nontrivial(1);
+                ctx.class("c19/parser-history-deep-macro-chain", 1);
+            }
+            CaseOutcome::Fail { key, what, .. } => ctx.fail(Failure { key, what: format!("[deep chain history] {}", what), replay: json!({"kind":"c19-hist","history":c.history,"probe":c.probe,"regs":c.regs}) }),
+            CaseOutcome::Inconclusive(w) => ctx.inconclusive(&w),
+            CaseOutcome::Known(_) => {}
+        }
+    }
     drop(quiet);
     ctx.note(&format!("isolation and parser-history parts finished after {:.1}s", ctx.start.elapsed().as_secs_f64()));
     for r in 0..ctx.tier.pick(4u64, 64u64) {
         threads_round(ctx, r);
     }
+    ctx.note(&format!("thread rounds finished after {:.1}s", ctx.start.elapsed().as_secs_f64()));
     let workers: Vec<Result<(), String>> = (0..16).into_par_iter().map(|_| check_new_vm()).collect();
     for w in &workers {
         ctx.add_evals(1);
@@ -529,6 +617,7 @@ pub fn run(ctx: &Ctx) {
     }
     let n_det = ctx.tier.pick(400usize, 5_000usize);
     run_cases(ctx, "c19-determinism", n_det, det_s, eval_det, |c| json!({"source": det_source(c), "interpreted": c.interpreted, "stdin_lines": c.stdin_lines}));
+    ctx.note(&format!("determinism part finished after {:.1}s", ctx.start.elapsed().as_secs_f64()));
     ctx.require_class("c19/isolation-10-switches", 500);
     ctx.require_class("c19/isolation-interleaved-inside-rep", 50);
     ctx.require_class("c19/parser-history-with-error", 500);
@@ -536,6 +625,7 @@ pub fn run(ctx: &Ctx) {
     ctx.require_class("c19/determinism-several-undefined-labels-reported", 30);
     ctx.require_class("c19/determinism-valid-program", 20);
     ctx.require_class("c19/determinism-several-undefined-labels-from-one-macro", 15);
+    ctx.require_class("c19/determinism-several-undefined-labels-from-one-macro-use", 15);
     ctx.require_class("c19/parser-history-same-macro-names-other-bodies", 100);
 }
 
